@@ -180,6 +180,15 @@ class Spec:
 
             return deco
 
+        def lemma(name, tags=(), **opts):
+            def deco(func):
+                c = Contract("lemma::%s" % name, func, node_of(func), tags, path, "lemma", opts)
+                c.ns = ns
+                spec.contracts["lemma::%s" % name] = c
+                return func
+
+            return deco
+
         def external(full, tags=(), **opts):
             def deco(func):
                 c = Contract("external::%s" % full, func, node_of(func), tags, path, "external", opts)
@@ -210,7 +219,7 @@ class Spec:
         ns = dict(
             REAL=REAL, INT=INT, BOOL=BOOL, ATOM=ATOM, CHARS=CHARS, NONE=NONE, Ref=Ref, Opt=Opt, Tup=Tup, ListOf=ListOf, MapOf=MapOf,
             schema=schema, struct=struct, record=record, module_var=module_var, const=const, inline=inline, lock=lock,
-            abstract_bool=abstract_bool, class_tag=class_tag, contract=contract, virtual=virtual, external=external,
+            abstract_bool=abstract_bool, class_tag=class_tag, contract=contract, virtual=virtual, external=external, lemma=lemma,
             grid=grid, ground_numbers=ground_numbers, charset=charset, clock=clock, Fraction=Fraction_,
         )
         # clause names must exist so that decorated bodies compile (they are never run)
@@ -445,8 +454,11 @@ def apply_contract_at_call(eng, c, module, cls, node, args, kwargs, line):
     # normal outcome
     havoc_modifies(eng, c, c.modifies, fr, "c_%s" % c.short.replace(".", "_"))
     if c.ret_sort is not None and c.ret_sort != NONE:
-        res = fresh_value(c.ret_sort, "ret_%s" % c.short.replace(".", "_"))
-        eng.wf_assume(res)
+        if c.opts.get("fresh_result") and isinstance(c.ret_sort, (Ref, ListOf, MapOf)):
+            res = SV(c.ret_sort, eng.new_ref())
+        else:
+            res = fresh_value(c.ret_sort, "ret_%s" % c.short.replace(".", "_"))
+            eng.wf_assume(res)
     else:
         res = NONE_V
     fr_post = spec_frame(eng, c, locals_, pre_heap, locals_)
@@ -491,7 +503,45 @@ def make_param(eng, name, sort):
     return v
 
 
+def verify_lemma(eng, c):
+    """a spec-level lemma: fresh parameters, assume requires, prove ensures"""
+    res = FunctionResult(c)
+    res.info = dict(file=os.path.relpath(c.sidecar, os.path.dirname(os.path.dirname(c.sidecar))), lines=[c.node.lineno, c.node.end_lineno], sha256="")
+    eng.cur_func = c.qual
+    eng.cur_short = c.short
+    eng.cur_tags = c.tags
+    eng.cur_target = c.qual
+
+    def run(p):
+        locals_ = {}
+        for a in c.node.args.args:
+            locals_[a.arg] = make_param(eng, a.arg, c.param_sorts[a.arg])
+        fr = spec_frame(eng, c, locals_, {}, locals_)
+        eng.region_frame = fr
+        for label, n in c.requires:
+            p.assume(zb(eval_clause(eng, c, n, fr)), check=False)
+        if p.solver.check() == z3.unsat:
+            raise E.Infeasible()
+        for label, n in c.ensures:
+            g = eval_clause(eng, c, n, fr)
+            eng.oblige("%s/lemma:%s" % (eng.cur_short, label), zb(g), "ensures", extra={"clause": ast.unparse(n)})
+        eng.oblige("%s/canary" % eng.cur_short, z3.BoolVal(False), "canary")
+
+    try:
+        results = eng.explore(run, 10)
+    except EngineLimit as e:
+        res.status = "out-of-reach"
+        res.limit = str(e)
+        return res
+    for p, status in results:
+        res.paths += 1
+        res.obligations += p.obligations
+    return res
+
+
 def verify_function(eng, c, max_paths=3000):
+    if c.kind == "lemma":
+        return verify_lemma(eng, c)
     res = FunctionResult(c)
     module, cls, node = eng.repo.find(c.qual)
     res.info = dict(file=module.relpath, lines=[node.lineno, node.end_lineno], sha256=eng.repo.sha(module, node))
@@ -538,6 +588,7 @@ def verify_function(eng, c, max_paths=3000):
         fr.old_heap = pre_heap
         p.heap0 = pre_heap
         sfr = spec_frame(eng, c, entry_locals, pre_heap, entry_locals, module)
+        eng.region_frame = sfr
         for label, n in c.requires:
             p.assume(zb(eval_clause(eng, c, n, sfr)), check=False)
         # materialise the lazily created initial arrays in the pre-state snapshot
@@ -643,6 +694,8 @@ def finish_normal(eng, c, result, entry_locals, pre_heap, module):
         if r["iff"] and r["when"] is not None:
             g = bm.not_(eval_in_pre(eng, c, r["when"], entry_locals, pre_heap, module))
             eng.oblige("%s/raises-iff:%s" % (eng.cur_short, r["label"]), zb(g), "ensures")
+    if c.opts.get("fresh_result") and isinstance(result, SV) and isinstance(result.sort, (Ref, ListOf, MapOf)):
+        eng.oblige("%s/ensures:result_is_fresh" % eng.cur_short, zr(result.t) > z3.Int("alloc0"), "ensures")
     for label, n in c.ensures:
         g = eval_clause(eng, c, n, fr)
         eng.oblige("%s/ensures:%s" % (eng.cur_short, label), zb(g), "ensures", extra={"clause": ast.unparse(n)})
